@@ -179,6 +179,11 @@ impl Exec {
     /// evaluate an operation; panics propagate to the caller's guard
     pub fn eval(&mut self, op: &OpKind, args: &[usize]) -> Array {
         use OpKind::*;
+        if let Stack(_) = op {
+            // nested construction takes its parts by value: the handles move into the call
+            let parts: Vec<Array> = args.iter().map(|&h| self.slots[h].take().expect("dead slot")).collect();
+            return Array::from(parts);
+        }
         if op.consumes_operand() {
             // the closures of corgi::activation take the array by value: the handle moves into the call
             let x = self.slots[args[0]].take().expect("dead slot");
@@ -210,7 +215,7 @@ impl Exec {
             Relu => a[0].relu(),
             Sigmoid => a[0].sigmoid(),
             Softmax => a[0].softmax(),
-            ActRelu | ActSigmoid | ActSoftmax => unreachable!(),
+            ActRelu | ActSigmoid | ActSoftmax | Stack(_) => unreachable!(),
             CAdd | CMul | CScale(_) | CFused3 | CBAdd | CBMul => {
                 let id = self.n_custom;
                 let (fw, bw) = custom_closures(op, id, Rc::clone(&self.log));
